@@ -307,8 +307,8 @@ def ch_correspond(chk, impl, model, n):
 
 
 def asan_pass(chk, model, scen, seen_sigs):
-    """thorough: the same histories under AddressSanitizer with freed user blocks poisoned (reads after free)"""
-    impl = build('asan')
+    """a subset of the histories again under AddressSanitizer with freed user blocks poisoned (reads after free)"""
+    impl, _ = build('asan')
     n = 0
 
     def one(s):
@@ -396,8 +396,8 @@ def run(chk):
         chk.finding(sig, dict(script=small, detail=detail,
                               how='./check C17 --replay <this file>  (feeds the script to harness/c17_alloc.c and the trace to the verified monitor)'),
                     what)
-    if not quick:
-        asan_pass(chk, model, scen[:len(G.fixed_scenarios())] + scen[-150:], seen_sigs)
+    nfix = len(scen) - n
+    asan_pass(chk, model, scen[:nfix] + scen[-(10 if quick else 150):], seen_sigs)
     nbad = ch_correspond(chk, impl, model, 150 if quick else 5000)
     if nbad:
         seen_sigs['codeholder'] = None
